@@ -455,9 +455,20 @@ def rule_G(ctx):
     eps_list = (0.00001, 0.25, 2.0, 6.0, 11.0, 25.0, 1.0e6)
     found = {}
     n_cases = 0
-    for algo, f in (('douglas_peucker', fd), ('visvalingam', fv)):
-        run = fn['__name__'](algo)
+    msim = ctx.prog.module(SIM)
+    modes = {k: (v.value if isinstance(v, ast.Constant) else None) for k, v in msim.consts.items() if k.startswith('MODE_SIMPLIFY')}
+    fsim = ctx.prog.maybe_func(SIM + '.simplify')
+    entries = [('douglas_peucker', fd, fn['__name__']('douglas_peucker')), ('visvalingam', fv, fn['__name__']('visvalingam'))]
+    if fsim is not None and modes.get('MODE_SIMPLIFY_DOUGLAS_PEUCKER') is not None and modes.get('MODE_SIMPLIFY_VISVALINGAM') is not None:
+        # the documented front door: simplify(track, tolerance, mode)
+        sim = fn['__name__']('simplify')
+        entries.append(('douglas_peucker', fd, lambda t_, e_: sim(t_, e_, modes['MODE_SIMPLIFY_DOUGLAS_PEUCKER'])))
+        entries.append(('visvalingam', fv, lambda t_, e_: sim(t_, e_, modes['MODE_SIMPLIFY_VISVALINGAM'])))
+        entries.append(('douglas_peucker', fd, lambda t_, e_: sim(t_, e_)))
+    for entry_no, (algo, f, run) in enumerate(entries):
         for sname, pts in shapes.items():
+            if entry_no >= 2:
+                sname = sname + ' [through simplify()]'
             for eps in eps_list:
                 t = T([O(k, *p_) for k, p_ in enumerate(pts)], 'u', 't')
                 n_cases += 1
